@@ -328,6 +328,9 @@ class Contract:
     inline = False           # expand the body at call sites instead of using pre/post
     loops = {}               # ordinal -> LoopSpec
     labels = {}              # label name -> LoopSpec for a label that is the target of a BACKWARD goto
+    replay_labels = ()       # labels at the top level of the function body reached by a backward goto that is NOT a
+    #                          cycle (`goto done;` from an error path placed after `done: ...; return;`): the code from
+    #                          the label to the end of the function is executed again from the goto's state
     trusted = False          # contract is assumed, body not verified (listed in evidence)
     pure = False             # assigns nothing
 
@@ -381,7 +384,8 @@ class Contract:
 
 class Frame:
     def __init__(self, raw=(), fields=(), err=False, ghost=(), all_fields=False, all_raw=False, havoc_if=None,
-                 all_raw_if=None, trace=None):
+                 all_raw_if=None, trace=None, keep_records=()):
+        self.keep_records = tuple(keep_records)   # with all_fields: records whose field heaps are nevertheless kept
         self.trace = None if trace is None else list(trace)
         #                               the engine's call trace ('tmp:' ghost variables: counts and arguments of calls to
         #                               recorded callees and modelled externals).  None: this function may extend any
@@ -410,7 +414,12 @@ def _has_quantifier(e, _seen=None):
 
 class LoopSpec:
     def __init__(self, invariant=None, unroll=None, raw=None, summarise=False, assume_exit=False, readonly=False,
-                 keep_fields=False, ghost_update=None, forget=()):
+                 keep_fields=False, ghost_update=None, forget=(), trace=None):
+        self.trace = None if trace is None else list(trace)
+        #                               None: a loop that calls anything may extend any trace (all trace variables are
+        #                               arbitrary at the head).  A list: only these trace variables (and the engine's
+        #                               record of direct calls) change in an iteration -- the others are kept at the
+        #                               head, and every back edge carries the obligation that they are unchanged
         self.forget = tuple(forget)   # names of locals the loop does not assign whose VALUE is nevertheless forgotten at
         #                               the head (as if assigned): what the iterations need to know about them must then
         #                               be in the invariant.  Keeps hard defining expressions (floating point, division)
@@ -1284,6 +1293,8 @@ class Exec:
             label = self.label_name(n['targetLabelDeclId'])
             if label in self.labels_seen:
                 spec = self.contract.labels.get(label)
+                if spec is None and label in self.contract.replay_labels:
+                    return self.replay_from_label(label, st, n)
                 if spec is None or label not in self.back_labels:
                     raise NotSupported("backward goto %s without a label invariant in the contract" % label)
                 entry = self.back_labels[label]
@@ -1323,6 +1334,25 @@ class Exec:
         # expression statement
         self.ev(n, st, want=False)
         return st
+
+    def replay_from_label(self, label, st, n):
+        body = [c for c in self.fn['inner'] if c.get('kind') == 'CompoundStmt'][0]
+        stmts = body.get('inner', []) or []
+        pos = [k for k, s_ in enumerate(stmts) if s_.get('kind') == 'LabelStmt' and s_.get('name') == label]
+        if not pos:
+            raise NotSupported("replayed label %s is not at the top level of the function body" % label)
+        if getattr(self, '_replaying', 0) >= 2:
+            raise NotSupported("backward goto %s: replay does not terminate" % label)
+        self._replaying = getattr(self, '_replaying', 0) + 1
+        try:
+            first = stmts[pos[0]]
+            cur = self.exec_stmt(first['inner'][0], st)
+            cur = self.exec_block(stmts[pos[0] + 1:], cur)
+            if cur is not None:
+                self.returns.append((cur, None, 'end'))
+        finally:
+            self._replaying -= 1
+        return None
 
     def same_heaps_ob(self, st, head, line, what):
         """obligations of a read-only cycle at a back edge: every heap, the bytes, the error indicator and the
@@ -1677,7 +1707,12 @@ class Exec:
                     raise NotSupported("loop #%d of %s keeps field heaps but no loop-body contract proves it" % (ordinal, self.fname))
                 keepf = True
             h.havoc('loop%d' % ordinal, raw=False, fields=(acc['fields'] or acc['calls']) and not keepf, ghost=acc['calls'],
-                    err=self.fresh('loop%d_err' % ordinal, B64) if (acc['err'] or acc['calls']) else None)
+                    err=self.fresh('loop%d_err' % ordinal, B64) if (acc['err'] or acc['calls']) else None,
+                    keep_trace=spec.trace is not None)
+            if spec.trace is not None and acc['calls']:
+                for gname in list(spec.trace) + self.direct_keys_all():
+                    for gk, srt in self.ghost_keys(h, gname):
+                        h.ghost[gk] = self.fresh('loop%d_%s' % (ordinal, gname), srt)
         head = h.copy()
         if spec.summarise:
             self.summarised_loops.append((self.fname, ordinal, line))
@@ -1725,6 +1760,16 @@ class Exec:
                     cur.ghost[gk] = gv
             for label, g, extra in _norm(spec.invariant(c_end, cur)):
                 self.ob('loop-preserved', line, 'loop%d:%s' % (ordinal, label), cur, g, hyps_extra=extra or ())
+            if spec.trace is not None:
+                probe = 'tmp:(any other trace variable)'
+                for gk in sorted(set(k_ for k_ in cur.ghost if k_.startswith('tmp:')) | {probe}):
+                    if gk in spec.trace or self.direct_key(gk):
+                        continue
+                    srt = cur.ghost[gk].sort() if gk in cur.ghost else B64
+                    x, y = cur.gvar(gk, srt), head.gvar(gk, srt)
+                    if not _same(x, y):
+                        self.ob('loop-preserved', line, 'loop%d:trace variable %s is unchanged in an iteration' % (ordinal, gk),
+                                cur, x == y)
             if spec.readonly:
                 self.same_heaps_ob(cur, head, line, 'loop%d' % ordinal)
         return merge_states(exits)
@@ -1855,6 +1900,15 @@ class Exec:
             p = self.ev(a, st)
             i = cast_int(self.ev(b, st), tb, 64)
             et = self.tu.ctype_of(n)
+            base = a
+            while base.get('kind') in ('ImplicitCastExpr', 'ParenExpr'):
+                base = base['inner'][0]
+            if base.get('kind') == 'MemberExpr' and base.get('name') in getattr(self.reg, 'word_arrays', ()) \
+                    and et.kind in ('ptr', 'int') and et.size == 8:
+                # (opt-in per registry) the elements of this array member are kept as whole words in a heap of their
+                # own, indexed by element address, instead of eight bytes each in the byte heap: assumes that they are
+                # reached only through this member (A-SEP for the item array of tuples)
+                return Loc('field', et, p + i * BV(8, 64), 'words.' + base['name'], 0)
             return Loc('mem', et, p + i * BV(max(et.size, 1), 64))
         if k == 'UnaryOperator' and n['opcode'] == '*':
             p = self.ev(n['inner'][0], st)
@@ -2317,6 +2371,18 @@ class Exec:
             return False
         return any(getattr(k, 'record_calls', False) and (k.function or k.name) == f for k in self.reg.contracts.values())
 
+    def direct_keys_all(self):
+        out = []
+        for k in self.reg.contracts.values():
+            if getattr(k, 'record_calls', False):
+                f = k.function or k.name
+                fd = self.tu.functions.get(f) or self.tu.fundecls.get(f)
+                if fd is None:
+                    continue
+                out.append('tmp:calls:' + f)
+                out += ['tmp:arg:%s:%s' % (f, c_['name']) for c_ in fd.get('inner', []) if c_.get('kind') == 'ParmVarDecl' and c_.get('name')]
+        return sorted(set(out))
+
     def _mentions_direct_key(self, e, seen):
         if e.get_id() in seen:
             return None
@@ -2387,7 +2453,8 @@ class Exec:
                 privset = {k for k, sym in enumerate(self.stack_syms) if any(sym[0].eq(p[0]) for p in priv)}
                 self._callee_raw[st.raw.get_id()] = (before_call, privset, st.raw, allraw_fresh)
         if fr.all_fields:
-            st.havoc('after_' + name, raw=False, fields=True, ghost=False)
+            st.havoc('after_' + name, raw=False, fields=True, ghost=False,
+                     keep_records=tuple(self.tu.parse_type(t).name for t in fr.keep_records))
         for f in fr.fields:
             if isinstance(f, tuple):
                 t = self.tu.parse_type(f[0])
